@@ -195,7 +195,7 @@ def snapshot(ctx):
     sites = sqlinv.inventory(F, F.family(b))
     for n, s in enumerate(sites):
         R.require(s.recv == key, "site#%d" % n, s.call.where(), "query on the handle_need transaction", fail_msg="a query in handle_need runs on %s instead of the single read transaction" % sorted(s.recv))
-    R.floor(len(sites), 8, "sites", "SQL sites in handle_need")
+    R.floor(len(sites), 4, "sites", "SQL sites in handle_need")
     R.require(not tx.commits(b), "no-commit", b.where(), "the read transaction is never committed (read-only use)")
 
 
@@ -206,7 +206,7 @@ def range_(ctx):
     if not R.anchor(b, "handle_need", "fn handle_need"):
         return
     news = [c for c in b.calls if c.f.endswith("ChunkedChanges::<I>::new")]
-    if not R.floor(len(news), 4, "chunkers", "ChunkedChanges::new sites in handle_need"):
+    if not R.floor(len(news), 2, "chunkers", "ChunkedChanges::new sites in handle_need"):
         return
     for n, c in enumerate(news):
         # row source: query_map(.., row_to_change) -> statement -> prepare_cached(SQL)
@@ -348,7 +348,7 @@ def cols(ctx):
                 continue
             R.require(sc == want, "cols@%s#%d" % (F.root_fn(b).id.rsplit("::", 1)[-1], n), c.where(), "SELECT columns %s match row_to_change" % sc,
                       fail_msg="SELECT lists %s but row_to_change reads %s: values land in the wrong Change fields (e.g. seq/cl swapped)" % (sc, want))
-    R.floor(n, 5, "queries", "queries decoded with row_to_change")
+    R.floor(n, 3, "queries", "queries decoded with row_to_change")
 
 
 def order(ctx):
